@@ -18,7 +18,7 @@ pub fn prop() -> Prop {
         max_len: 600,
         quick: 300_000,
         thorough: 3_000_000,
-        rule: "choice sequence -> envelope (incl. wrapped, nested nodes, repeated digests, already-obscured parts) x target set (random subset of element digests, plus absent digests, or empty) x {removing, revealing} x {Elide, Encrypt, Compress} through the set/array/target API forms, or a whole-envelope form (elide, encrypt_subject, encrypt, compress, compress_subject), optionally chained twice; oracle: root digest unchanged (model digest), every surviving position has the digest of the same position in the original (harness recomputation + library digest()), no panic. non-trivial: >=1 element changed case; distinct by FNV-64 of (encoding, targets, mode, action); consequence stage (1 in 6): the envelope signed by 2-3 keys with/without metadata, a target set (often one element inside a signature assertion) obscured, every signer whose 'signed' assertion is byte-for-byte untouched must verify as before; proof consequence (an inclusion proof for any element still present, made from the original or from the transformed envelope, is confirmed by the other) and recipient consequence (after encrypt_subject_to_recipients, obscuring one sealed message leaves >= n-1 recipients able to open); SSKR consequence (2-of-3 split, the second presented share with its subject elided or another element obscured: the quorum still reconstructs)",
+        rule: "choice sequence -> envelope (incl. wrapped, nested nodes, repeated digests, already-obscured parts) x target set (random subset of element digests, plus absent digests, or empty) x {removing, revealing} x {Elide, Encrypt, Compress} through the set/array/target API forms, or a whole-envelope form (elide, encrypt_subject, encrypt, compress, compress_subject), optionally chained twice; oracle: root digest unchanged (model digest), every surviving position has the digest of the same position in the original (harness recomputation + library digest()), no panic. non-trivial: >=1 element changed case; distinct by FNV-64 of (encoding, targets, mode, action); consequence stage (1 in 6): the envelope signed by 2-3 keys with/without metadata, a target set (often one element inside a signature assertion) obscured, every signer whose 'signed' assertion is byte-for-byte untouched must verify as before; proof consequence (an inclusion proof for any element still present, made from the original or from the transformed envelope, is confirmed by the other) and recipient consequence (after encrypt_subject_to_recipients, obscuring one sealed message leaves >= n-1 recipients able to open); SSKR consequence (2-of-3 split, the second presented share with its subject elided or another element obscured: the quorum still reconstructs); type consequence (the object or the predicate of an 'isA' assertion obscured: has_type / check_type / types() as before)",
         assumptions: &["encrypt(): 'same digest as the original' is read as the digest of the wrapped original, since encrypt = wrap + encrypt_subject by documentation"],
         extra: None,
     }
